@@ -171,7 +171,57 @@ def data_setters(index, rep):
                 rep.check(ok, rule, f"{name}:{prefix}{k} = 1 + row[{column}{src_year}]",
                           f"{prefix}{k} is set to {got}, not 1 + the country row's {column}{src_year}: the option does not apply the country's "
                           "own estimate for that year unchanged", loc=loc(SCEN, fn))
-    rep.require_min(rule, 21)
+    # the in-country waste options: every distribution-loss entry and the retail waste are a fraction of the country row turned into a
+    # percentage (x 100) - an entry left as the raw fraction is a hundred times too small
+    WASTE_COLUMNS = {"SUGAR": "distribution_loss_sugar", "CROPS": "distribution_loss_crops", "MEAT": "distribution_loss_meat",
+                     "MILK": "distribution_loss_dairy", "SEAFOOD": "distribution_loss_seafood", "SEAWEED": "distribution_loss_seafood"}
+    for name, retail in (("set_country_waste_to_tripled_prices", "retail_waste_price_triple"), ("set_country_waste_to_doubled_prices", "retail_waste_price_double"),
+                         ("set_country_waste_to_baseline_prices", "retail_waste_baseline")):
+        fn = index.func(SCEN, "Scenarios." + name)
+        init = index.func(SCEN, "Scenarios.__init__")
+        flags = {dotted(st.targets[0])[5:]: False for st in init.body if isinstance(st, ast.Assign) and (dotted(st.targets[0]) or "").endswith("_SET")}
+        if not flags:
+            flags = {"WASTE_SET": False}
+
+        def runit(it, fn=fn):
+            it.classes = {"Scenarios": cls}
+            it.opaque_calls = True
+            attrs = dict(flags)
+            attrs.update({"IS_GLOBAL_ANALYSIS": False, "scenario_description": ""})
+            obj = Obj(cls, attrs, "self")
+            cfp = PDict({})
+            from .core import bind_named
+            a_, k_ = bind_named(fn, [("constants_for_params", cfp), ("country_data", Path(("row",)))])
+            it.call_function(fn, a_, k_, obj)
+            return cfp
+
+        try:
+            leaves = [x for x in explore(runit, month_classes=False) if not isinstance(x[2], Abort)]
+        except Unsupported as e:
+            raise AnalysisError(f"Scenarios.{name} outside the analysed fragment: {e}")
+        if not leaves:
+            raise AnalysisError(f"Scenarios.{name}: no completing path")
+        for _, dec, cfp, it in leaves:
+            wd = cfp.d.get("WASTE_DISTRIBUTION")
+            for food, col in WASTE_COLUMNS.items():
+                got = wd.d.get(food) if isinstance(wd, PDict) else None
+                want = Rat.const(100) * it.to_rat(Path(("row", col)))
+                try:
+                    ok = got is not None and it.to_rat(got) == want
+                except Unsupported:
+                    ok = False
+                rep.check(ok, rule, f"{name}:WASTE_DISTRIBUTION.{food} = 100 x row[{col}]",
+                          f"the distribution loss of {food} is set to {got}, not 100 x the country row's {col} (a percentage): the option does not "
+                          "apply the country's own estimate", loc=loc(SCEN, fn))
+            got_r = cfp.d.get("WASTE_RETAIL")
+            try:
+                cols_r = {a_.path[1] for a_ in it.to_rat(got_r).atoms() if isinstance(a_, K) and len(a_.path) == 2 and a_.path[0] == "row"} if got_r is not None else set()
+                ok_r = len(cols_r) == 1 and it.to_rat(got_r) == Rat.const(100) * it.to_rat(Path(("row", next(iter(cols_r)))))
+            except Unsupported:
+                ok_r = False
+            rep.check(ok_r, rule, f"{name}:WASTE_RETAIL = 100 x one retail column of the row",
+                      f"the retail waste is set to {got_r}, not 100 x a retail-waste column of the country row", loc=loc(SCEN, fn))
+    rep.require_min(rule, 21 + 21)
 
 
 # ------------------------------------------------------------------------------------------ key collection
@@ -315,6 +365,23 @@ def _dict_subkeys(value, fn, methods):
         # {key: ... for key, other in <literal table>}: the keys the table lists
         g_ = value.generators[0]
         table = _literal_seq(g_.iter, fn)
+        if table is None:
+            # ... or over the items / keys of a dict literal bound to a local (or a table of the module)
+            it_ = g_.iter
+            mode_ = None
+            if isinstance(it_, ast.Call) and isinstance(it_.func, ast.Attribute) and it_.func.attr in ("items", "keys") and not it_.args and isinstance(it_.func.value, ast.Name):
+                it_, mode_ = it_.func.value, it_.func.attr
+            elif isinstance(it_, ast.Name):
+                mode_ = "keys"
+            if mode_ and isinstance(it_, ast.Name):
+                defs_ = [st.value for st in walk_no_nested(fn) if isinstance(st, ast.Assign) and any(isinstance(t, ast.Name) and t.id == it_.id for t in st.targets)]
+                if not defs_:
+                    mod_ = fn
+                    while getattr(mod_, "_parent", None) is not None:
+                        mod_ = mod_._parent
+                    defs_ = [st.value for st in getattr(mod_, "body", []) if isinstance(st, ast.Assign) and any(isinstance(t, ast.Name) and t.id == it_.id for t in st.targets)]
+                if len(defs_) == 1 and isinstance(defs_[0], ast.Dict) and all(k_ is not None for k_ in defs_[0].keys):
+                    table = [ast.Tuple(elts=[k_, v_], ctx=ast.Load()) for k_, v_ in zip(defs_[0].keys, defs_[0].values)] if mode_ == "items" else list(defs_[0].keys)
         ks = []
         for row in table or []:
             bind = {}
@@ -1609,6 +1676,32 @@ def override(index, rep):
             ok = len(writes) == 1 and key_chain(writes[0].targets[0]) == ("constants_for_params", [key]) \
                 and norm_src(writes[0].value) == f"float(scenario_option_copy['{key}'])" \
                 and any(norm_src(a.test).replace(" ", "") == f"{lo}<=constants_for_params['{key}']<={hi}" for a in asserts)
+        if not ok and len(blk) == 1:
+            # written another way (through a shared helper, converted and converted back): the block is evaluated - on every completing path
+            # the constant is the option's own value, and some assertion over that value is made on the way
+            from .symx import Interp as _IO, Obj as _OO, Path as _PO, PDict as _DO, Unsupported as _UO, explore as _eo, Abort as _AO
+            rcls = index.cls(RUN, "ScenarioRunner")
+
+            def run_o(it, blk=blk, key=key):
+                it.classes = {"ScenarioRunner": rcls}
+
+                def hook(interp, d, a, kw, node):
+                    if d in ("float", "np.float64") and len(a) == 1:
+                        return a[0]
+                    return NotImplemented
+                it.call_hook = hook
+                cfp = _DO({})
+                env = {"self": _OO(rcls, {}, "self"), "scenario_option_copy": _DO({key: _PO(("opt", key))}), "constants_for_params": cfp}
+                it.exec_block(blk[0].body, env)
+                return cfp
+            try:
+                lv = [x for x in _eo(run_o, month_classes=False)]
+                done = [x for x in lv if not isinstance(x[2], _AO)]
+                n_assert = max((len(x[3].asserts) for x in done), default=0)
+                ok = bool(done) and n_assert >= 1 and all(
+                    x[2].d.get(key) is not None and x[3].to_rat(x[2].d[key]) == x[3].to_rat(_PO(("opt", key))) for x in done)
+            except _UO:
+                ok = False
         rep.check(ok, rule, f"override:{key}",
                   f"override {key} does not write exactly constants_for_params[{key!r}] = float(option) with a {lo}..{hi} range check",
                   loc=loc(RUN, fn))
